@@ -9,21 +9,17 @@ CONSTANT NAlpha
 Alphabet == << <<>>, <<65>>, <<65, 98, 32, 99>>, <<197, 20013, 128512>>,
                <<79, 39, 78, 101, 105, 108, 45, 88, 46>> >>
 
-VARIABLES c, phase
-vars == <<c, phase>>
+VARIABLE c
+vars == <<c>>
 
-Init == /\ c \in [1..NComp -> {Alphabet[i] : i \in 1..NAlpha}]
-        /\ phase = "built"
-Format == phase = "built" /\ phase' = "text" /\ UNCHANGED c
-Parse  == phase = "text" /\ phase' = "parsed" /\ UNCHANGED c
-Next == Format \/ Parse
+Init == c \in [1..NComp -> {Alphabet[i] : i \in 1..NAlpha}]
+Next == UNCHANGED c
 Spec == Init /\ [][Next]_vars
 
 SpecOk == /\ WellFormed(c)
           /\ RoundTrip(c)
           /\ TrailingOmitted(c)
 
-Emit == (phase = "parsed") =>
-          PrintT(<<"CASE", ToJson([comps |-> c, text |-> ToText(c), back |-> FromText(ToText(c)),
+Emit == PrintT(<<"CASE", ToJson([comps |-> c, text |-> ToText(c), back |-> FromText(ToText(c)),
                                    present |-> [i \in 1..NComp |-> c[i] # <<>>]])>>)
 =============================================================================
